@@ -6,8 +6,16 @@ cd $WT || exit 2
 mkdir -p examples && cp /verif/replay/xr_run.rs examples/xr_run.rs
 run_demo() {
   python3 - "$WT/seed/demo.xr" <<'PY' | ./target/debug/examples/xr_run
-import json,sys
-print(json.dumps({"source": open(sys.argv[1]).read(), "bindings": [], "call": "main"}))
+import json,sys,os,tomllib
+spec={"source": open(sys.argv[1]).read(), "bindings": [], "call": "main"}
+t=sys.argv[1].replace("demo.xr","demo.toml")
+if os.path.exists(t):
+    cfg=tomllib.load(open(t,"rb"))
+    spec["limits"]={k:v for k,v in cfg.get("limits",{}).items() if isinstance(v,int)}
+    spec["forbid"]=cfg.get("limits",{}).get("forbidden_permissions",[])
+    spec["allow"]=cfg.get("limits",{}).get("allowed_permissions",[])
+    sys.stderr.write("expected_violation=%r\n"%cfg.get("expected_violation"))
+print(json.dumps(spec))
 PY
 }
 echo "== with change: test suite"
